@@ -159,6 +159,75 @@ func lookupTable(kind string, lk Lookup, variant int) (*gtab.LookupTable, error)
 			cur = append(cur, r)
 		}
 		flush()
+	case kind == "GSUB" && lk.Ty == 2:
+		var cur [][]int
+		flush := func() {
+			if len(cur) == 0 {
+				return
+			}
+			var keys []glyph.ID
+			for _, r := range cur {
+				keys = append(keys, glyph.ID(r[0]))
+			}
+			cov := ranks(keys)
+			repl := make([][]glyph.ID, len(cur))
+			for _, r := range cur {
+				for _, g := range r[1:] {
+					repl[cov[glyph.ID(r[0])]] = append(repl[cov[glyph.ID(r[0])]], glyph.ID(g))
+				}
+			}
+			res.Subtables = append(res.Subtables, &gtab.Gsub2_1{Cov: cov, Repl: repl})
+			cur = nil
+		}
+		seen := map[int]bool{}
+		for _, r := range lk.Rules {
+			if len(r) < 2 {
+				return nil, fmt.Errorf("empty multiple substitution")
+			}
+			if seen[r[0]] {
+				flush()
+				seen = map[int]bool{}
+			}
+			seen[r[0]] = true
+			cur = append(cur, r)
+		}
+		flush()
+	case kind == "GPOS" && lk.Ty == 1:
+		var cur [][]int
+		flush := func() {
+			if len(cur) == 0 {
+				return
+			}
+			var keys []glyph.ID
+			same := true
+			for _, r := range cur {
+				keys = append(keys, glyph.ID(r[0]))
+				same = same && r[1] == cur[0][1] && r[2] == cur[0][2]
+			}
+			cov := ranks(keys)
+			if same && variant%2 == 0 {
+				// format 1: one value record for all covered glyphs
+				res.Subtables = append(res.Subtables, &gtab.Gpos1_1{Cov: cov,
+					Adjust: &gtab.GposValueRecord{XAdvance: funit.Int16(cur[0][1]), XPlacement: funit.Int16(cur[0][2])}})
+			} else {
+				adj := make([]*gtab.GposValueRecord, len(cur))
+				for _, r := range cur {
+					adj[cov[glyph.ID(r[0])]] = &gtab.GposValueRecord{XAdvance: funit.Int16(r[1]), XPlacement: funit.Int16(r[2])}
+				}
+				res.Subtables = append(res.Subtables, &gtab.Gpos1_2{Cov: cov, Adjust: adj})
+			}
+			cur = nil
+		}
+		seen := map[int]bool{}
+		for _, r := range lk.Rules {
+			if seen[r[0]] {
+				flush()
+				seen = map[int]bool{}
+			}
+			seen[r[0]] = true
+			cur = append(cur, r)
+		}
+		flush()
 	case kind == "GSUB" && lk.Ty == 4:
 		parts := [][][]int{lk.Rules}
 		if variant > 0 && len(lk.Rules) >= 2 {
